@@ -171,6 +171,24 @@ class Pos(V):
         return ('pos', self.name, self.base.key())
 
 
+class PosC(V):
+    """%position(K, base) with K an integer CONSTANT: K + base.  No label and no position involved: the value is final as soon as
+    the constants are known (a literal-valued operand).  Accepted by the implementation like %offset(K)."""
+    const_dep = True
+
+    def __init__(self, name, base):
+        self.name, self.base = name, base
+
+    def eval(self, ctx):
+        return ctx.consts[self.name] + self.base.eval(ctx)
+
+    def render(self, st):
+        return '%position(' + self.name + (', ' if st.pick(2, 'possep') else ' ') + self.base.render(st) + ')'
+
+    def key(self):
+        return ('posc', self.name, self.base.key())
+
+
 class Hi(V):
     def __init__(self, v):
         self.v = v
